@@ -118,6 +118,16 @@ def _root_.MlModel.Queue.Raise.isErr : Raise → Bool
   | .err _ => true
   | _ => false
 
+@[simp] theorem isErr_err (e : ErrKind) : (Raise.err e).isErr = true := rfl
+@[simp] theorem isErr_empty : Raise.empty.isErr = false := rfl
+@[simp] theorem isErr_stop (r : List Nat) : (Raise.stop r).isErr = false := rfl
+@[simp] theorem final_beq_empty (s : Shared) : (s.final == .empty) = false := by
+  unfold Shared.final; cases s.exc <;> simp
+@[simp] theorem final_ne_empty (s : Shared) : s.final ≠ .empty := by
+  unfold Shared.final; cases s.exc <;> simp
+@[simp] theorem final_isErr (s : Shared) : s.final.isErr = s.exc.isSome := by
+  unfold Shared.final; cases s.exc <;> simp
+
 def armed (t : Thread) : Bool :=
   match t.pc with
   | .nRelErr _ => t.x != .empty
